@@ -111,7 +111,52 @@ def tile_rules(repo, fi, k):
         pr = [n for n in walk_no_nested(fi.node) if isinstance(n, ast.Call) and dotted(n.func) == "predict" and len(n.args) > 1 and unparse(n.args[1]) == "X_"]
         ok = ok and len(pr) == 1 and unparse(kwarg(pr[0], "args", 2)) == "args"
         out.append((holds if ok else unrecognised)("R-WIN", fi, role, "_fast_tile_substitute(%s); predict(model, X_, args=args)" % ", ".join(a), call[0], nontrivial=False))
+        out += fresh_buffer_rule(fi, call[0])
     return out
+
+
+def fresh_buffer_rule(fi, call):
+    """the in-place kernel writes a motif into every row of its first argument: candidates of one motif must not survive into the
+    evaluation of the next.  The buffer is bound, in the same iteration of the loop that contains the call, to a fresh allocation
+    (repeat / tile / clone / copy / numpy(force=True) of the current sequence); a subscript (numpy / torch basic indexing = a view) of
+    an array that lives across iterations is shared storage."""
+    role = "the buffer handed to the in-place kernel is freshly allocated for every motif (no storage shared between motifs)"
+    pm = parent_map(fi.node)
+    if not call.args or not isinstance(call.args[0], ast.Name):
+        return [unrecognised("R-FRESH", fi, role, "first argument of the kernel is not a plain name", call)]
+    buf = call.args[0].id
+    loop = call
+    while loop in pm and not isinstance(loop, (ast.For, ast.While)):
+        loop = pm[loop]
+    if not isinstance(loop, (ast.For, ast.While)):
+        return [unrecognised("R-FRESH", fi, role, "kernel call is not inside a loop", call)]
+    defs = [s_ for s_ in ast.walk(loop) if isinstance(s_, ast.Assign) and len(s_.targets) == 1 and isinstance(s_.targets[0], ast.Name)
+            and s_.targets[0].id == buf and s_.lineno < call.lineno]
+    if not defs:
+        return [named("R-FRESH", fi, role, "`%s` is not rebound inside the loop that calls the kernel: every motif writes into the same array" % buf, call)]
+    d = defs[-1]
+    v = d.value
+    inner_names = {x.id for s_ in ast.walk(loop) for x in ast.walk(s_) if isinstance(x, ast.Name) and isinstance(x.ctx, ast.Store)}
+    # peel value-preserving wrappers that keep sharing storage
+    e = v
+    while True:
+        if isinstance(e, ast.Subscript):
+            base = e.value
+            while isinstance(base, (ast.Subscript, ast.Attribute)):
+                base = base.value
+            if isinstance(base, ast.Name) and base.id not in inner_names and base.id != "X":
+                return [named("R-FRESH", fi, role, "`%s = %s` is a view of `%s`, which is created outside the motif loop: what one motif wrote is still "
+                              "there when the next (shorter) motif is evaluated" % (buf, unparse(v)[:50], base.id), d)]
+            e = e.value
+            continue
+        if isinstance(e, ast.Call) and isinstance(e.func, ast.Attribute) and e.func.attr in ("repeat", "tile", "clone", "copy", "repeat_interleave", "contiguous"):
+            return [holds("R-FRESH", fi, role, "%s = %s" % (buf, unparse(v)[:60]), d)]
+        if isinstance(e, ast.Call) and dotted(e.func) in ("numpy.tile", "numpy.repeat", "torch.clone", "numpy.copy", "numpy.array", "torch.tile"):
+            return [holds("R-FRESH", fi, role, "%s = %s" % (buf, unparse(v)[:60]), d)]
+        if isinstance(e, ast.Call) and isinstance(e.func, ast.Attribute) and e.func.attr in ("numpy", "detach", "cpu", "view", "reshape"):
+            e = e.func.value
+            continue
+        return [unrecognised("R-FRESH", fi, role, "`%s = %s`: allocation not recognised" % (buf, unparse(v)[:60]), d)]
 
 
 def accept_rules(fi, pm):
